@@ -372,3 +372,27 @@ pub fn curated_status(_a: &Args) {
         }
     }
 }
+
+
+pub fn timing(a: &Args) {
+    let specs = vcore::enumerate::family(a.tier);
+    let mut t: Vec<(u128, String)> = specs
+        .par_iter()
+        .map(|s| {
+            let t0 = std::time::Instant::now();
+            let _ = common::observe(s, false);
+            (t0.elapsed().as_micros(), s.short())
+        })
+        .collect();
+    let total: u128 = t.iter().map(|x| x.0).sum();
+    t.sort();
+    t.reverse();
+    println!("total {} ms over {} defs", total / 1000, t.len());
+    for (us, s) in t.iter().take(12) {
+        println!("{us:>8} us  {s}");
+    }
+    for key in ["[^b]", "[^a]", ".", "\\p{Greek}", "é", "€", "(?i"] {
+        let (n, sum) = t.iter().filter(|x| x.1.contains(key)).fold((0u64, 0u128), |a, x| (a.0 + 1, a.1 + x.0));
+        println!("contains {key:<12} n={n:<6} total={} ms avg={} us", sum / 1000, if n > 0 { sum / n as u128 } else { 0 });
+    }
+}
